@@ -44,6 +44,7 @@ def gen(tier, rng, harness=None):
     for m, text, sk in modprops.gen_modules(rng, n):
         lines.append("mod.outcome %s %s" % (hx(sk), hx(text)))
         lines.append("mod.lists %s %s" % (hx(sk), hx(text)))
+        lines.append("mod.refs %s %s" % (hx(sk), hx(text)))      # name-level: the comdat / attribute groups each entity is bound to
         lines.append("!mod.closure %s %s" % (hx(sk), hx(text)))
         # every operand is printed from the object it was bound to: the canonical text must come back byte for byte (a use bound to
         # another definition - e.g. `%"1"` taken for `%1` - changes the printed operand)
